@@ -928,6 +928,7 @@ func NewPortStatus() *PortStatus {
 	p := new(PortStatus)
 	p.Header = NewOfp13Header()
 	p.pad = make([]byte, 7)
+	p.Desc = *NewPhyPort()
 	return p
 }
 
